@@ -399,8 +399,8 @@ def shrink(case):
 
 def extra_obligations(tier):
     """send_http_start and send_http_body of baize/asgi/helper.py (the single place that builds the ASGI response messages),
-    BaseResponse.list_headers of baize/responses.py, and Response.__call__ and SmallResponse.__call__ of
-    baize/asgi/responses.py are translated, one by one, from the source in BAIZE_REPO as it is now (coroutines into the monad
+    BaseResponse.list_headers of baize/responses.py, Response.__call__ and SmallResponse.__call__ of
+    baize/asgi/responses.py and Response.__call__ of baize/wsgi/responses.py are translated, one by one, from the source in BAIZE_REPO as it is now (coroutines into the monad
     of C05/PyLib.v, statement by statement: `await send(m)` = srv_send m, a dict display = dict_lit, d["k"] = v = dict_set,
     `headers is not None` = a match on the option; list_headers into map / ++), and coqc re-checks, per function, the part
     of C05/Translated.v about it against the fresh definitions: for every status, header list or None, body, flag and send
@@ -409,7 +409,9 @@ def extra_obligations(tier):
     http.response.start, the status given and a "headers" key iff headers were given, the body message exactly the bytes
     and flag given; list_headers is the items, then one set-cookie pair per cookie (the model's list_headers); the two
     __call__ send, for every base, body, media type, charset and send fault point, exactly the events and outcome of
-    asgi_run (RPlain b) / asgi_run (RSmall b body media charset).  C05/PyLib.v's dict is compared with the interpreter's.
+    asgi_run (RPlain b) / asgi_run (RSmall b body media charset); Response.__call__ of baize/wsgi/responses.py calls
+    start_response exactly once (StatusStringMapping[status], the model's header list) and returns one empty chunk:
+    wsgi_full (RPlain b).  C05/PyLib.v's dict is compared with the interpreter's.
     One obligation per function; a source the translator refuses is not applicable (None) and takes with it only the
     functions that call it."""
     import importlib.util
